@@ -270,7 +270,7 @@ def replay(ck, path):
 
 def main():
     ck = Check("C09", "proof")
-    ck.lean_stage(["VelaVerif.Props.C09"])
+    ck.lean_stage(["VelaVerif.Props.C09", "VelaVerif.Props.C09Src"])
     common.setup_repo_path()
     if ck.replay_arg:
         replay(ck, ck.replay_arg)
